@@ -124,6 +124,7 @@ func runC16(c *Ctx) {
 	stop := make(chan struct{})
 	seen := sync.Map{}
 	var shared [8]atomic.Value // tenant -> a session cookie published by some worker: used by all of them at once
+	var sharedAt [8]atomic.Value
 	worker := func(id int) {
 		defer wg.Done()
 		jar := map[int]string{}     // tenant -> session cookie
@@ -169,8 +170,13 @@ func runC16(c *Ctx) {
 				verdict = fmt.Sprint(resp.GetStatus().GetCode(), "/", resp.GetDeniedResponse().GetStatus().GetCode())
 				if resp.GetStatus().GetCode() == 0 {
 					atomic.AddInt64(&oks, 1)
+					// the published session stays the same for 1.8 s, so that it is used by all workers THROUGH the expiry of its
+					// tokens (1 s) - several checks then refresh the same session at once
 					if kind == "visit" && jar[t] != "" {
-						shared[t].Store(jar[t])
+						if at, _ := sharedAt[t].Load().(time.Time); at.IsZero() || time.Since(at) > 1800*time.Millisecond {
+							shared[t].Store(jar[t])
+							sharedAt[t].Store(time.Now())
+						}
 					}
 				}
 				if kind == "shared-session" {
